@@ -28,7 +28,7 @@ META = dict(
                 thorough="13 systems, + pre_eig variants"),
     outside=["systems between grid points for the coupled (eigen) path", "damped rigid-body modes in the frequency domain (pyYeti computes a = F/m)"],
     assumptions=["tolerance 1e-9 relative to the 1-norm of the reference linear form (floor: 1e-3 of the row's largest form)"],
-    reach_required=["SolveUnc", "FreqDirect", "rb", "rf", "coupled", "complex-system", "zero-frequency", "pre_eig", "solvepsd"],
+    reach_required=["SolveUnc", "FreqDirect", "rb", "rf", "coupled", "complex-system", "zero-frequency", "pre_eig", "solvepsd", "history"],
 )
 
 
@@ -219,24 +219,27 @@ def path_fn(name, sysd, freqs, tier):
     return fn
 
 
-def job(name, tier):
+FREQSETS = ([0.0, 0.3, 7.0, 90.0], [7.0, 0.0, 90.0, 0.3])
+
+
+def job(name, tier, fset=0):
     O.patch_ode()
     sysd = systems(tier)[name]
-    freqs = [0.0, 0.3, 7.0, 90.0]
+    freqs = list(FREQSETS[fset])
     n = O.full(sysd["m"], sysd["b"], sysd["k"])[2].shape[0]
     names = ["F%s_%d_%d" % (p, i, j) for p in "ri" for i in range(n) for j in range(len(freqs))]
     eng = E.Engine()
     eng.obl_mode = "each"
     res = eng.explore(path_fn(name, sysd, freqs, tier), assumptions=S.box(names))
-    res["note"] = name
-    H.triage(res, "fsolve", replay, lambda c: dict(name=name, tier=tier, model=c["model"], labels=c["labels"], info=c.get("info")), max_replays=4)
+    res["note"] = "%s freqs=%s" % (name, freqs)
+    H.triage(res, "fsolve", replay, lambda c: dict(name=name, tier=tier, fset=fset, model=c["model"], labels=c["labels"], info=c.get("info")), max_replays=4)
     return res
 
 
 def replay(p):
     from pyyeti import ode
     sysd = systems(p["tier"])[p["name"]]
-    freqs = [0.0, 0.3, 7.0, 90.0]
+    freqs = list(FREQSETS[p.get("fset", 0)])
     M, B, K = O.full(sysd["m"], sysd["b"], sysd["k"])
     n = K.shape[0]
     nf = len(freqs)
@@ -294,8 +297,9 @@ def replay(p):
 
 
 # ---------------------------------------------------------------------------
-def psd_fn(eng):
-    """structure of solvepsd with the solver stubbed by fresh complex symbols"""
+def psd_fn(eng, zero_row=False):
+    """structure of solvepsd with the solver stubbed by fresh complex symbols;
+    zero_row: the first force's PSD is identically zero (a force that is switched off)"""
     S.set_engine(eng)
     import pyyeti.ode._utilities as U
     from vsym.npproxy import rebind
@@ -320,26 +324,46 @@ def psd_fn(eng):
     for row in psdz:
         for z in row:
             eng.assume(z >= 0)
+    if zero_row:
+        psdz[0] = [z3.RealVal(0)] * nfreq
     forcepsd = O.sarr(psdz)
+    if zero_row:
+        forcepsd[0, :] = 0.0
     t_frc = O.sarr(O.zmat("T", ndof, nfrc))
     drma = O.sarr(O.zmat("Da", nrow, ndof))
     drmd = O.sarr(O.zmat("Dd", nrow, ndof))
     drmf = O.sarr(O.zmat("Df", nrow, nfrc))
     rbduf, elduf = S.SymR(z3.Real("rbduf")), S.SymR(z3.Real("elduf"))
     O.NP.sym = True
+    info = dict(zero_row=zero_row)
     try:
         rms, psd = f(FS(), forcepsd, t_frc, freq, [[drma, None, drmd, drmf], [None, drma, None, None]],
                      rbduf=rbduf, elduf=elduf, incrb="av")
+    except E.Inconclusive:
+        raise
+    except Exception as ex:
+        return [E.Obl("solvepsd raises %r" % (ex,), False, info=info)]
     finally:
         O.NP.sym = False
     eng.tag("solvepsd")
     obls = []
-    obls.append(E.Obl("one fsolve per force", len(calls) == nfrc))
-    for i, (gf, kw, _) in enumerate(calls):
-        obls.append(E.Obl("options forwarded", kw == dict(incrb="av")))
+    if not zero_row:
+        obls.append(E.Obl("one fsolve per force", len(calls) == nfrc, info=info))
+    # the transfer functions of force i, whichever call produced them (a switched-off force need not be solved)
+    byforce = {}
+    for gf, kw, Hh in calls:
+        for i in range(nfrc):
+            if all(z3.is_true(z3.simplify(S.lift(gf[r, 0]) == S.lift(t_frc[r, i]))) for r in range(ndof)):
+                byforce.setdefault(i, Hh)
+    if len(byforce) < nfrc - (1 if zero_row else 0) or (len(calls) != nfrc and not zero_row):
+        return obls + [E.Obl("every active force is solved with its own column of t_frc", False, info=info)]
+    if zero_row and 0 not in byforce:
+        byforce[0] = SimpleNamespace(a=S.cmat("Hx", ndof, nfreq), v=S.cmat("Hy", ndof, nfreq), d=S.cmat("Hz", ndof, nfreq))
+    for gf, kw, _ in calls:
+        obls.append(E.Obl("options forwarded", kw == dict(incrb="av"), info=info))
         for r in range(ndof):
             for k in range(nfreq):
-                obls.append(E.Obl("unit force pattern", S.lift(gf[r, k]) == S.lift(t_frc[r, i])))
+                obls.append(E.Obl("unit force pattern is constant over frequency", S.lift(gf[r, k]) == S.lift(gf[r, 0]), info=info))
     uf = [z3.Real("rbduf")] + [z3.Real("elduf")] * 2
     for j, which in enumerate(("avdf", "v")):
         for r in range(nrow):
@@ -348,7 +372,7 @@ def psd_fn(eng):
             for k in range(nfreq):
                 tot = z3.RealVal(0)
                 for i in range(nfrc):
-                    H = calls[i][2]
+                    H = byforce[i]
                     re = z3.RealVal(0)
                     im = z3.RealVal(0)
                     for q in range(ndof):
@@ -361,32 +385,153 @@ def psd_fn(eng):
                     if j == 0:
                         re = re + S.lift(drmf[r, i])
                     tot = tot + psdz[i][k] * (re * re + im * im)
-                obls.append(E.Obl("psd[%d][%d,%d] = sum_i PSD_i |drm H_i|^2" % (j, r, k), S.lift(psd[j][r, k]) == tot))
+                obls.append(E.Obl("psd[%d][%d,%d] = sum_i PSD_i |drm H_i|^2" % (j, r, k), S.lift(psd[j][r, k]) == tot, info=info))
                 if prev is not None:
                     exp_ms = exp_ms + (fz[k] - fz[k - 1]) * (prev + tot) / 2
                 prev = tot
             rr = rms[j][r]
-            obls.append(E.Obl("rms[%d][%d] is a square root" % (j, r), isinstance(rr, S.SymRoot)))
+            obls.append(E.Obl("rms[%d][%d] is a square root" % (j, r), isinstance(rr, S.SymRoot), info=info))
             if isinstance(rr, S.SymRoot):
-                obls.append(E.Obl("rms[%d][%d]^2 = trapezoidal area" % (j, r), rr.of == exp_ms))
+                obls.append(E.Obl("rms[%d][%d]^2 = trapezoidal area" % (j, r), rr.of == exp_ms, info=info))
     return obls
 
 
-def psd_job():
+def replay_psd(p):
+    """real solver, concrete data: solvepsd against sum_i PSD_i |drm H_i|^2 built from unit-force fsolve runs"""
+    from pyyeti import ode
+    O.NP.sym = False
+    mdl = p["model"]
+    gf = lambda k, d: float(Fraction(mdl[k])) if (k in mdl and mdl[k] is not None and not isinstance(mdl[k], str)) else d
+    rng = np.random.RandomState(4)
+    ndof, nfrc, nfreq, nrow = 3, 2, 3, 2
+    m, b, k = np.ones(3), np.array([0.0, 0.6, 1.2]), np.array([0.0, 300.0, 1500.0])
+    ts = ode.SolveUnc(m, b, k)
+    freq = np.sort(np.array([gf("f%d" % q, 1.0 + 2 * q) for q in range(nfreq)]))
+    if np.any(np.diff(freq) <= 0) or freq[0] <= 0:
+        freq = np.array([1.0, 3.0, 5.5])
+    P = np.array([[gf("P%d_%d" % (i, q), 0.5 + i + q) for q in range(nfreq)] for i in range(nfrc)])
+    if p.get("zero_row"):
+        P[0] = 0.0
+    T = np.array([[gf("T_%d_%d" % (r, i), rng.randn()) for i in range(nfrc)] for r in range(ndof)])
+    Da = np.array([[gf("Da_%d_%d" % (r, q), rng.randn()) for q in range(ndof)] for r in range(nrow)])
+    Dd = np.array([[gf("Dd_%d_%d" % (r, q), rng.randn()) for q in range(ndof)] for r in range(nrow)])
+    Df = np.array([[gf("Df_%d_%d" % (r, i), rng.randn()) for i in range(nfrc)] for r in range(nrow)])
+    rbduf, elduf = gf("rbduf", 1.2), gf("elduf", 0.8)
+    try:
+        rms, psd = ode.solvepsd(ts, P, T, freq, [[Da, None, Dd, Df], [None, Da, None, None]], rbduf=rbduf, elduf=elduf, incrb="av")
+    except Exception as ex:
+        return True, "solvepsd raises %r (forcepsd %r)" % (ex, P.tolist())
+    uf = np.array([rbduf, elduf, elduf])
+    want0 = np.zeros((nrow, nfreq))
+    want1 = np.zeros((nrow, nfreq))
+    for i in range(nfrc):
+        sol = ts.fsolve(T[:, [i]] @ np.ones((1, nfreq)), freq, incrb="av")
+        h0 = Da @ (uf[:, None] * sol.a) + Dd @ (uf[:, None] * sol.d) + Df[:, [i]]
+        h1 = Da @ (uf[:, None] * sol.v)
+        want0 += P[i] * np.abs(h0) ** 2
+        want1 += P[i] * np.abs(h1) ** 2
+    msgs = []
+    for nm, got, want in (("psd[0]", psd[0], want0), ("psd[1]", psd[1], want1)):
+        if not np.allclose(got, want, rtol=1e-9, atol=1e-12 * max(1, np.abs(want).max())):
+            msgs.append("%s differs from sum_i PSD_i |drm H_i|^2 by %.3e (scale %.3e)" % (nm, np.abs(got - want).max(), np.abs(want).max()))
+    for nm, got, want in (("rms[0]", rms[0], want0), ("rms[1]", rms[1], want1)):
+        area = np.sum(np.diff(freq) * (want[:, :-1] + want[:, 1:]) / 2, axis=1)
+        if not np.allclose(np.asarray(got) ** 2, area, rtol=1e-9):
+            msgs.append("%s^2 is not the trapezoidal area" % nm)
+    if msgs:
+        return True, "solvepsd with force PSDs %r: %s" % (P.tolist(), "; ".join(msgs[:3]))
+    return False, "solvepsd equals the sum over forces on the real code"
+
+
+def psd_job(zero_row=False):
     eng = E.Engine(obl_timeout_ms=120000)
     eng.obl_mode = "each"
-    res = eng.explore(psd_fn)
-    res["note"] = "solvepsd structure"
-    H.triage(res, "solvepsd", lambda p: (False, "structural kernel: no concrete replay"), lambda c: dict(model=c["model"]))
+    res = eng.explore(lambda e: psd_fn(e, zero_row))
+    res["note"] = "solvepsd structure (zero first PSD row: %s)" % zero_row
+    H.triage(res, "solvepsd", replay_psd, lambda c: dict(model=c["model"], zero_row=zero_row))
     return res
 
 
-REPLAY = {"fsolve": replay, "solvepsd": lambda p: (False, "n/a")}
+# ---------------------------------------------------------------------------
+def hist_fn(name, tier):
+    """fsolve -> tsolve -> fsolve on one solver object: the second frequency solution equals the first"""
+    def fn(eng):
+        S.set_engine(eng)
+        from pyyeti import ode
+        sysd = systems(tier)[name]
+        M, B, K = O.full(sysd["m"], sysd["b"], sysd["k"])
+        n = K.shape[0]
+        freqs = [0.3, 7.0]
+        info = dict(name=name, tier=tier)
+        O.NP.sym = False
+        ts = ode.SolveUnc(sysd["m"], sysd["b"], sysd["k"], 0.01, rf=sysd.get("rf"))
+        F = S.cmat("F", n, len(freqs))
+        for v in F.ravel():
+            eng.assume(z3.And(v.re >= -1, v.re <= 1, v.im >= -1, v.im <= 1))
+        try:
+            O.NP.sym = True
+            s1 = ts.fsolve(F.copy(), freqs)
+            O.NP.sym = False
+            ts.tsolve(np.ones((n, 4)))
+            O.NP.sym = True
+            s2 = ts.fsolve(F.copy(), freqs)
+        except E.Inconclusive:
+            raise
+        except Exception as ex:
+            return [E.Obl("fsolve/tsolve/fsolve sequence raises %r" % (ex,), False, info=info)]
+        finally:
+            O.NP.sym = False
+        eng.tag("history")
+        obls = []
+        for nm in "dva":
+            a1, a2 = getattr(s1, nm), getattr(s2, nm)
+            for idx in np.ndindex(*a1.shape):
+                obls.append(E.Obl("fsolve after a tsolve on the same object returns the same %s%s" % (nm, idx), S.close(a2[idx], a1[idx], 1e-12), info=info))
+        return obls
+    return fn
+
+
+def replay_hist(p):
+    from pyyeti import ode
+    O.NP.sym = False
+    sysd = systems(p["tier"])[p["name"]]
+    n = O.full(sysd["m"], sysd["b"], sysd["k"])[2].shape[0]
+    rng = np.random.RandomState(0)
+    F = rng.randn(n, 2) + 1j * rng.randn(n, 2)
+    ts = ode.SolveUnc(sysd["m"], sysd["b"], sysd["k"], 0.01, rf=sysd.get("rf"))
+    s1 = ts.fsolve(F.copy(), [0.3, 7.0])
+    ts.tsolve(np.ones((n, 4)))
+    s2 = ts.fsolve(F.copy(), [0.3, 7.0])
+    for nm in "dva":
+        if not np.allclose(getattr(s1, nm), getattr(s2, nm), rtol=1e-10, atol=1e-12):
+            return True, "SolveUnc(%s, h=0.01): fsolve, tsolve, fsolve - the second frequency solution differs from the first in %s by %.3e" % (
+                p["name"], nm, np.abs(getattr(s1, nm) - getattr(s2, nm)).max())
+    return False, "fsolve is unaffected by an intervening tsolve on the real code"
+
+
+def hist_job(name, tier):
+    O.patch_ode()
+    eng = E.Engine()
+    eng.obl_mode = "each"
+    res = eng.explore(hist_fn(name, tier))
+    res["note"] = "fsolve-tsolve-fsolve on %s" % name
+    H.triage(res, "history", replay_hist, lambda c: dict(name=name, tier=tier))
+    return res
+
+
+REPLAY = {"fsolve": replay, "solvepsd": replay_psd, "history": replay_hist}
 
 
 def jobs(tier, seed):
     out = [H.Job(name, job, name, tier, weight=5) for name in systems(tier)]
+    for name, sysd in systems(tier).items():
+        if _rb_rows(sysd):
+            out.append(H.Job(name + "-freqorder2", job, name, tier, 1, weight=5))
+        if not np.isrealobj(np.asarray(sysd["k"])) or not np.isrealobj(np.asarray(sysd["b"])) or (sysd.get("m") is not None and not np.isrealobj(np.asarray(sysd["m"]))):
+            continue
+        out.append(H.Job(name + "-history", hist_job, name, tier, weight=5))
     out.append(H.Job("solvepsd", psd_job, weight=20))
+    out.append(H.Job("solvepsd-zero-row", psd_job, True, weight=20))
     return out
 
 
